@@ -516,10 +516,13 @@ def replay_nolibxml(here, job, r, f, trace, log):
     if not exe:
         return False, "native replay build failed: " + err, {"function": job.entry}
     try:
-        p = subprocess.run([exe], capture_output=True, text=True, timeout=300)
+        # under valgrind (children too): an over-read of the exact-size heap copy of the buffer makes the child exit with status 1
+        p = subprocess.run(["valgrind", "-q", "--trace-children=yes", "--error-exitcode=1", exe], capture_output=True, text=True, timeout=600)
     except subprocess.TimeoutExpired:
-        return True, "REPRODUCED: native scenario did not terminate within 300 s", {"function": job.entry}
-    return p.returncode == 1, (p.stdout + p.stderr).strip()[-800:], {"function": job.entry, "argv": []}
+        return True, "REPRODUCED: native scenario did not terminate within 600 s", {"function": job.entry}
+    out = p.stdout + p.stderr
+    m = re.search(r"REPRODUCED[^\n]*", out)
+    return p.returncode == 1 or bool(m), ((m.group(0) + " | ") if m else "") + " ".join(x.strip() for x in re.findall(r"Invalid (?:read|write)[^\n]*\n[^\n]*\n[^\n]*", out)[:1])[:500] or out.strip()[-500:], {"function": job.entry, "argv": ["valgrind", exe]}
 
 
 REPLAYERS["nolibxml"] = replay_nolibxml
